@@ -66,6 +66,7 @@ fn c04_limiter_step_chars_canary() {
 }
 
 // @harness props=C04 tier=quick cost=10
+// @replay process_input
 // @exec MaxArgsCommandSizeLimiter::try_arg, MaxLinesCommandSizeLimiter::try_arg, LimiterCursor::try_next
 // @sym limiter state and limit (full usize under the invariant), argument kind, next limiter accepts or rejects
 // @bounds one step from an arbitrary valid state
@@ -124,6 +125,7 @@ fn c04_limiter_step_args_lines_canary() {
 }
 
 // @harness props=C04 tier=quick cost=15
+// @replay limiter_chars
 // @exec LimiterCollection::{try_arg,clone}, LimiterCursor::try_next, the three limiters chained in do_xargs' order (-n, -L, -s)
 // @sym all three states and limits (bounded so that sums cannot wrap), argument of 1..3 bytes, kind
 // @bounds one step; chain shape -n,-L,-s fixed (concrete vtables), values symbolic
@@ -180,6 +182,7 @@ fn c04_chain_step_canary() {
 }
 
 // @harness props=C04 tier=quick cost=30
+// @replay limiter_chars
 // @exec LimiterCollection::try_arg twice on -n,-s (state carried between the two steps through the real objects)
 // @sym both states/limits, two arguments of 1..3 bytes
 // @bounds two consecutive steps
@@ -355,6 +358,7 @@ fn c19_exit_code_map_canary() {
 }
 
 // @harness props=C19 tier=quick cost=5
+// @replay process_input
 // @exec CommandResult::combine
 // @sym accumulated result and new outcome
 // @bounds one step (sticky failure over histories of any length)
@@ -855,6 +859,7 @@ fn c04_process_input_protocol_canary() { run_process_input(true); }
 
 // ------------------------------------------------------------------------------------------ C04 initial arguments
 // @harness props=C04 tier=quick cost=40 flags=nomem
+// @replay initial_args
 // @exec CommandBuilderOptions::new (the command and its initial arguments are charged to the limiters before any input), LimiterCollection::try_arg
 // @sym -s limit (0..1000); command "cm" with one initial argument "i"; a probing argument of 1..3 bytes afterwards
 // @bounds fixed command of two words (3 + 2 bytes incl. terminators); one -s limiter
